@@ -6,55 +6,85 @@ package testsuite
 // SQLite, migrated by the real RunMigrations) and pebbledbdriver (generickv over in-memory
 // Pebble), receive the same write batches through the trackerdb Writer interfaces inside one
 // store.Transaction per batch (the way ledger/tracker.go commits a round). After EVERY batch
-// the full read sweep of the harness is executed on both and compared.
+// the read sweep of the exploration is executed on both stores and compared.
 //
-// Alphabets (one E-SEQ exploration per table group, so that the bound is reached in each):
-//   accounts : Insert/Update/DeleteAccount, Insert/Update/DeleteResource (asset and app;
-//              holding / params+holding / params-only), Insert/DeleteCreatable, UpdateAccountsRound
-//   kv       : UpsertKvPair / DeleteKvPair over the prefix-sharing keys
-//              {"a","a\x00","a\xff","ab","b","\xff","\xff\xff"} with values {"1","", "22"}, UpdateAccountsRound
-//   online   : InsertOnlineAccount (two stakes, offline entry, late expiry; new round or same
-//              round as another account), OnlineAccountsDelete(forgetBefore),
-//              AccountsPutOnlineRoundParams, AccountsPruneOnlineRoundParams, UpdateAccountsRound
-//   tails    : TxtailNewRound (1-2 rounds, three forget points), UpdateAccountsRound (+1, same,
-//              lower), AccountsPutTotals (live/staging), UpdateAccountsHashRound,
-//              Store/DeleteOldSPContexts, online round params
-//   mixed    : one representative write per table, full sweep of all groups
-// A batch is one write or an ordered pair of writes of the group's alphabet. Bound: all
-// sequences of <= 3 batches (quick) / <= 4 (thorough), states merged by the canonical raw
-// dump of the SQLite tables (plus the raw Pebble key space).
+// One E-SEQ exploration per table group, so that the bound is reached in each
+// (depth = batches per sequence, quick / thorough):
+//   roundparams (4/5): AccountsPutOnlineRoundParams(1|2 rounds), AccountsPruneOnlineRoundParams(3 points), round
+//   stateproofs (4/5): StoreSPContexts(1|2), DeleteOldSPContexts(2 points), round
+//   txtail      (3/4): TxtailNewRound(1|2 rounds x 3 forget points), UpdateAccountsRound(+1, same, lower)
+//   totals      (3/4): AccountsPutTotals(2 values x live/staging), UpdateAccountsHashRound(2), round(+1, lower)
+//   accounts    (3/4): Insert/Update/DeleteAccount (A,B), Insert/Update/DeleteResource (asset #1 and
+//                      app #2; holding / params+holding / params-only), Insert/DeleteCreatable, round
+//   online      (3/3): InsertOnlineAccount (A,B; stake 1M, 2M, offline entry [, late expiry]; new round or
+//                      the round of the previous insert), OnlineAccountsDelete(forgetBefore: 2[3] points), round
+//   kv          (3/3): UpsertKvPair/DeleteKvPair over {"a","a\x00","a\xff","ab","b","\xff","\xff\xff"} with
+//                      values {"1",""[,"22"]}, round
+//   mixed       (2/3): one representative write per table (16 writes), sweep of all groups
+// A batch is one write or an ordered pair of writes of the group (all pairs for the small
+// groups; same entity / same key / neighbouring keys / insert+delete combinations for accounts,
+// kv and online — see c47harnesses). States are merged by the canonical raw dump of all
+// SQLite tables (including rowids) plus the raw Pebble key space.
+//
+// Read sweep (per group; every call on both stores): LookupAccount, LookupAccountRowID,
+// LookupAccountAddressFromAddressID, LookupAllResources, LookupResources (right and wrong
+// creatable type, absent index), LookupResourceDataByAddrID, LookupCreator, Total*;
+// LookupKeyValue, LookupKeysByPrefix (11 prefixes x 3 limits + prefilled result maps),
+// LookupKeysByPrefixCursor (11 prefixes x 5-8 cursors x 3-5 limits, maxBytes, includeValues,
+// exclude); LookupOnline (every round), LookupOnlineHistory, LookupOnlineAccountDataByAddress,
+// OnlineAccountsAll (4 limits), AccountsOnlineTop (every round x 3 offsets x 4 n),
+// ExpiredOnlineAccountsForRound, LookupOnlineRoundParams, AccountsOnlineRoundParams;
+// AccountsRound, AccountsHashRound, AccountsTotals, LoadTxTail, LookupSPContext, GetAllSPContexts.
 //
 // Caller contract assumed for the alphabet (writes outside it are not generated): rows are
 // inserted only when absent and updated/deleted only when present, with the AccountRef
 // obtained from LookupAccountRowID/InsertAccount; an account is deleted only when it has no
 // resources; a creatable index has one type for life; online updrounds per address grow;
 // OnlineAccountsDelete in the same transaction as an insert uses forgetBefore <= that
-// insert's round; tx tail / round params / state-proof rounds are appended contiguously.
+// insert's round; tx tail / round params / state-proof rounds are appended contiguously;
+// LookupKeysByPrefix is called with resultCount < maxKeyNum (ledger/acctupdates.go).
 //
 // Oracle: every read returns equal results on both backends — values (msgpack encoding of
 // the returned structures), rounds, order, more-data flags, nil-ness of values and Ref
 // handles, error-ness — ignoring only the backend-private content of Ref handles; results
 // accompanying an error are not compared; nil and empty slices are identified. Write
 // results (error-ness, rowsAffected, nil-ness of returned refs, transaction error) are
-// compared as well. Each disagreement class has the key "C47:<method>:<what differs>".
-// Supplementary, because the KV backend does not implement it: SQLite's
-// LookupLimitedResources is compared with the documented pagination semantics (ids strictly
-// greater than the cursor, ascending, at most max, creator params merged) computed from the
-// harness bookkeeping ("C47:LookupLimitedResources:sqlite-vs-expected:<aspect>").
+// compared as well, and after every batch the logical content of the two stores (decoded from
+// the raw dumps) must be the same. Keys: "C47:<read method>:<field that differs>[:<who
+// deviates from the documented semantics>]", "C47:<write method>:error-ness|rows-affected",
+// "C47:<write method>:stored-<table>" (the stores hold different rows after that write; such a
+// state is not expanded further).
+// Supplementary, SQLite only, because the KV backend does not implement them:
+// LookupLimitedResources against the documented pagination semantics (ids strictly greater
+// than the cursor, ascending, at most max, creator params merged), and the catchpoint
+// iterators MakeKVsIter / MakeOrderedOnlineAccountsIter / MakeOnlineRoundParamsIter against
+// the stored rows ("C47:<method>:sqlite-vs-expected:<aspect>").
 //
-// Not covered: methods the KV backend does not implement (listed at run time in the evidence
-// assumptions after probing them), catchpoint staging tables, crash behaviour, concurrent
-// transactions, writes violating the caller contract above.
+// Not covered: methods the KV backend does not implement (probed at run time and listed in the
+// evidence assumptions), MakeEncodedAccountsBatchIter / MakeOrderedAccountsIter / pending-hash
+// iterators and catchpoint staging tables, crash behaviour, concurrent transactions, writes
+// violating the caller contract above.
 //
 // Successor computation: a frontier state is rebuilt by replaying its batches on freshly
-// opened stores; the successors of that state are then produced on the same pair of
-// stores, restoring the raw content of both (all SQLite rows including rowids, all Pebble
-// keys) between operations. When a state reached that way is later expanded, its fresh
-// replay must reproduce the recorded raw dump (checked; a mismatch makes the run
-// INCONCLUSIVE, never a verdict). The read sweep of a state is executed once per distinct
-// raw dump.
+// opened stores; the successors of that state are then produced on the same pair of stores,
+// restoring the raw content of both (all SQLite rows including rowids, all Pebble keys)
+// between operations (stores are re-opened every 40 operations where the alphabet leaves
+// Pebble range tombstones). When a state reached that way is later expanded, its fresh replay
+// must reproduce the recorded raw dump (checked; a mismatch makes the run INCONCLUSIVE, never
+// a verdict). The read sweep of a state is executed once per distinct raw dump.
 //
-// Mutants (bin/mut, quick tier) — see the final report / checks.d/C47.json.
+// Mutants (bin/mut, quick tier, all DETECTED):
+//   sqlitedriver/accountsV2.go  AccountsOnlineTop "ORDER BY normalizedonlinebalance DESC, address DESC" -> without address
+//   sqlitedriver/sql.go         LookupLimitedResources "r.aidx > ?" -> ">="
+//   sqlitedriver/sql.go         LookupKeysByPrefix "kvstore.key < ?" -> "<="
+//   sqlitedriver/sql.go         DeleteResource "aidx = ?" -> "aidx >= ?"            (needs two resources, then a delete)
+//   generickv/accounts_ext_writer.go AccountsPruneOnlineRoundParams(deleteBeforeRound) -> +1
+//   generickv/schema.go         onlineAccountLatestRangePrefix without the inclusive bound
+//   generickv/accounts_reader.go keyPrefixIntervalPreprocessing upper bound prefix+0xff (misses
+//                               0xff-suffixed keys): DETECTED on a tree with the candidate fix
+//                               findings/C47-backend-disagreements/kv-prefix-scan-candidate-fix.patch;
+//                               on the unchanged tree the generickv prefix scan finds no key at all
+//                               (known finding R2), which hides this mutant.
 
 import (
 	"context"
@@ -83,7 +113,9 @@ type c47harness struct {
 	limited      bool // run the LookupLimitedResources expectation check
 	rangeDeletes bool // alphabet contains writes that leave range tombstones in Pebble
 	depth        int  // batches per sequence
-	run          *c47run
+	// SQLite-only catchpoint iterators checked against the stored rows
+	iterKV, iterOnline, iterOrp bool
+	run                         *c47run
 }
 
 type c47witness struct {
@@ -466,6 +498,128 @@ func (h *c47harness) sweepAndCompare(s *c47sys) {
 	if h.limited {
 		h.checkLimited(s)
 	}
+	h.checkIterators(s)
+}
+
+// checkIterators: the catchpoint-generation iterators exist on the SQLite backend only (the
+// generickv ones panic "unimplemented"), so they are compared with the stored rows of the raw
+// dump: MakeKVsIter must yield exactly the kv pairs (no order is documented: compared as a
+// set), MakeOrderedOnlineAccountsIter every online row ordered by (address, updround) as its
+// interface comment says, MakeOnlineRoundParamsIter every round in ascending order.
+func (h *c47harness) checkIterators(s *c47sys) {
+	ctx := context.Background()
+	d := s.curDump
+	tabRows := func(name string) (*c47table, [][]any) {
+		for i := range s.p.tabs {
+			if s.p.tabs[i].name == name {
+				return &s.p.tabs[i], d.sqRows[i]
+			}
+		}
+		return nil, nil
+	}
+	report := func(iter, aspect, got, want string) {
+		s.disagree("C47:"+iter+":sqlite-vs-expected:"+aspect, fmt.Sprintf("%s on sqlite: %s: got %q, stored rows give %q", iter, aspect, c47clip(got), c47clip(want)))
+	}
+	guard := func(iter string, f func()) {
+		defer func() {
+			if r := recover(); r != nil {
+				report(iter, "panic", fmt.Sprint(r), "")
+			}
+		}()
+		f()
+	}
+	if t, rows := tabRows("kvstore"); t != nil && h.iterKV {
+		guard("MakeKVsIter", func() {
+			ik, iv := c47colIndex(t, "key"), c47colIndex(t, "value")
+			var want, got []string
+			for _, r := range rows {
+				want = append(want, fmt.Sprintf("%x=%x", c47bytes(r[ik]), c47bytes(r[iv])))
+			}
+			it, err := s.p.sq.MakeKVsIter(ctx)
+			if err != nil {
+				report("MakeKVsIter", "error-ness", err.Error(), "")
+				return
+			}
+			defer it.Close()
+			for it.Next() {
+				k, v, err := it.KeyValue()
+				if err != nil {
+					report("MakeKVsIter", "error-ness", err.Error(), "")
+					return
+				}
+				got = append(got, fmt.Sprintf("%x=%x", k, v))
+			}
+			sort.Strings(want)
+			sort.Strings(got)
+			if strings.Join(got, ";") != strings.Join(want, ";") {
+				report("MakeKVsIter", "pairs", strings.Join(got, ";"), strings.Join(want, ";"))
+			}
+		})
+	}
+	if rows, ok := s.onlineRows(); ok && h.iterOnline {
+		guard("MakeOrderedOnlineAccountsIter", func() {
+			sort.Slice(rows, func(i, j int) bool {
+				if rows[i].addr != rows[j].addr {
+					return string(rows[i].addr[:]) < string(rows[j].addr[:])
+				}
+				return rows[i].upd < rows[j].upd
+			})
+			var want, got []string
+			for _, r := range rows {
+				want = append(want, fmt.Sprintf("%x@%d norm=%d data=%x", r.addr[:1], r.upd, r.norm, r.data))
+			}
+			it, err := s.p.sq.MakeOrderedOnlineAccountsIter(ctx, false, 0)
+			if err != nil {
+				report("MakeOrderedOnlineAccountsIter", "error-ness", err.Error(), "")
+				return
+			}
+			defer it.Close()
+			for it.Next() {
+				rec, err := it.GetItem()
+				if err != nil {
+					report("MakeOrderedOnlineAccountsIter", "error-ness", err.Error(), "")
+					return
+				}
+				got = append(got, fmt.Sprintf("%x@%d norm=%d data=%x", rec.Address[:1], rec.UpdateRound, rec.NormalizedOnlineBalance, []byte(rec.Data)))
+			}
+			if strings.Join(got, ";") != strings.Join(want, ";") {
+				sg, sw := append([]string{}, got...), append([]string{}, want...)
+				sort.Strings(sg)
+				sort.Strings(sw)
+				aspect := "rows"
+				if strings.Join(sg, ";") == strings.Join(sw, ";") {
+					aspect = "order"
+				}
+				report("MakeOrderedOnlineAccountsIter", aspect, strings.Join(got, ";"), strings.Join(want, ";"))
+			}
+		})
+	}
+	if t, rows := tabRows("onlineroundparamstail"); t != nil && h.iterOrp {
+		guard("MakeOnlineRoundParamsIter", func() {
+			ir, id := c47colIndex(t, "rnd"), c47colIndex(t, "data")
+			var want, got []string
+			for _, r := range rows { // the dump is ordered by the integer primary key
+				want = append(want, fmt.Sprintf("%d=%x", c47int(r[ir]), c47bytes(r[id])))
+			}
+			it, err := s.p.sq.MakeOnlineRoundParamsIter(ctx, false, 0)
+			if err != nil {
+				report("MakeOnlineRoundParamsIter", "error-ness", err.Error(), "")
+				return
+			}
+			defer it.Close()
+			for it.Next() {
+				rec, err := it.GetItem()
+				if err != nil {
+					report("MakeOnlineRoundParamsIter", "error-ness", err.Error(), "")
+					return
+				}
+				got = append(got, fmt.Sprintf("%d=%x", rec.Round, []byte(rec.Data)))
+			}
+			if strings.Join(got, ";") != strings.Join(want, ";") {
+				report("MakeOnlineRoundParamsIter", "rows", strings.Join(got, ";"), strings.Join(want, ";"))
+			}
+		})
+	}
 }
 
 // onlineRows decodes the stored online-account rows from the raw SQLite dump.
@@ -643,7 +797,7 @@ func c47harnesses(run *c47run) []*c47harness {
 			s = append(s, c47w{k: c47wKvDel, i: int8(i)})
 		}
 		s = append(s, round)
-		h := &c47harness{name: "kv", singles: s, depth: 3}
+		h := &c47harness{name: "kv", singles: s, depth: 3, iterKV: true}
 		h.sweep = func(k *c47sink, rd *c47readers, s *c47sys) {
 			k.read("AccountsRound", "", func(o *c47obs) error {
 				r, err := rd.arx.AccountsRound()
@@ -680,7 +834,7 @@ func c47harnesses(run *c47run) []*c47harness {
 			s = append(s, c47w{k: c47wOnDel, i: int8(i)})
 		}
 		s = append(s, round)
-		h := &c47harness{name: "online", singles: s, rangeDeletes: true, depth: 3}
+		h := &c47harness{name: "online", singles: s, rangeDeletes: true, depth: 3, iterOnline: true}
 		h.sweep = func(k *c47sink, rd *c47readers, s *c47sys) {
 			c47sweepOnline(k, rd, nA, s.m.onClock, s.m.orpHi, s.p.proto.RewardUnit, s.onlineRows)
 		}
@@ -698,7 +852,7 @@ func c47harnesses(run *c47run) []*c47harness {
 	// online round params
 	{
 		s := []c47w{{k: c47wOrpPut, v: 1}, {k: c47wOrpPut, v: 2}, {k: c47wOrpPrune, i: 0}, {k: c47wOrpPrune, i: 1}, {k: c47wOrpPrune, i: 2}, round}
-		h := &c47harness{name: "roundparams", singles: s, rangeDeletes: true, depth: c47depth + 1}
+		h := &c47harness{name: "roundparams", singles: s, rangeDeletes: true, depth: c47depth + 1, iterOrp: true}
 		h.sweep = func(k *c47sink, rd *c47readers, s *c47sys) {
 			c47sweepRound(k, rd)
 			c47sweepRoundParams(k, rd, s.m.orpHi)
@@ -744,7 +898,7 @@ func c47harnesses(run *c47run) []*c47harness {
 			{k: c47wTailNew, v: 1, i: 1}, {k: c47wTotals, v: 1, i: 0}, {k: c47wOrpPut, v: 1}, {k: c47wSpStore, v: 1},
 			round,
 		}
-		h := &c47harness{name: "mixed", singles: s, limited: true, rangeDeletes: true, depth: c47depth - 1}
+		h := &c47harness{name: "mixed", singles: s, limited: true, rangeDeletes: true, depth: c47depth - 1, iterKV: true, iterOnline: true, iterOrp: true}
 		mixedPairs := func(a, b c47w) bool { return !thorough || isRound(a) || isRound(b) }
 		h.sweep = func(k *c47sink, rd *c47readers, s *c47sys) {
 			c47sweepAccounts(k, rd, 2)
